@@ -96,23 +96,32 @@ type c17M struct {
 	muts   []string
 }
 
-func c17Pick64(r *vg.Rand, base int64, hostile bool) int64 {
-	if !hostile {
-		return base
-	}
-	return []int64{-1, 0, 1, base - 1, base + 1, base + 1000000, math.MaxInt64, math.MinInt64}[r.Intn(8)]
+// c17Force makes the generator mutate exactly one named field with the choice-th hostile value
+// (systematic single-field sweeps); nil = random mutations.
+type c17Force struct {
+	field  string
+	choice int
 }
-func c17Pick32(r *vg.Rand, base int32, hostile bool) int32 {
+
+type c17Picker func(n int) int
+
+func c17Pick64(pick c17Picker, base int64, hostile bool) int64 {
 	if !hostile {
 		return base
 	}
-	return []int32{-1, -2, 0, 1, base + 1, 1000, math.MaxInt32, math.MinInt32}[r.Intn(8)]
+	return []int64{-1, 0, 1, base - 1, base + 1, base + 1000000, math.MaxInt64, math.MinInt64}[pick(8)]
+}
+func c17Pick32(pick c17Picker, base int32, hostile bool) int32 {
+	if !hostile {
+		return base
+	}
+	return []int32{-1, -2, 0, 1, base + 1, 1000, math.MaxInt32, math.MinInt32}[pick(8)]
 }
 
 // hostile bit array shapes around a sane size n
-func c17HostileBA(r *vg.Rand, n int64) c17BA {
+func c17HostileBA(r *vg.Rand, pick c17Picker, n int64) c17BA {
 	ok := int((n + 63) / 64)
-	switch r.Intn(9) {
+	switch pick(9) {
 	case 0:
 		return c17BA{n, 0} // Bits without words
 	case 1:
@@ -136,23 +145,49 @@ func c17HostileBA(r *vg.Rand, n int64) c17BA {
 	return c17BA{int64(1) << uint(31+r.Intn(32)), r.Intn(2)}
 }
 
-func c17GenMsg(r *vg.Rand, which int, h int64, rd int32, hostilePct int) c17M {
+// fields of each message type that have hostile values (for the systematic sweep)
+var c17Fields = [][]string{
+	{"height", "round", "step", "lcr", "secs"},
+	{"height", "round", "total", "bitarray", "hashlen"},
+	{"height", "round", "polround", "type", "blockid", "siglen"},
+	{"height", "polround", "bitarray"},
+	{"height", "round", "index", "byteslen", "proof"},
+	{"height", "round", "type", "blockid", "addrlen", "index", "siglen"},
+	{"height", "round", "type", "index"},
+	{"height", "round", "type", "blockid"},
+	{"height", "round", "type", "blockid", "bitarray"},
+}
+
+func c17GenMsg(r *vg.Rand, which int, h int64, rd int32, hostilePct int, force *c17Force) c17M {
 	var muts []string
 	hos := func(name string) bool {
+		if force != nil {
+			if name == force.field {
+				muts = append(muts, name)
+				return true
+			}
+			return false
+		}
 		if r.Chance(hostilePct) {
 			muts = append(muts, name)
 			return true
 		}
 		return false
 	}
+	pick := func(n int) int {
+		if force != nil {
+			return force.choice % n
+		}
+		return r.Intn(n)
+	}
 	goodBID := c17BID{32, uint32(1 + r.Intn(4)), 32}
 	hostileBID := func() c17BID {
 		b := goodBID
-		switch r.Intn(8) {
+		switch pick(8) {
 		case 0:
-			b.hashLen = []int{0, 1, 31, 33, 64}[r.Intn(5)]
+			b.hashLen = []int{0, 1, 31, 33, 64}[pick(5)]
 		case 1:
-			b.pshHashLen = []int{0, 1, 31, 33}[r.Intn(4)]
+			b.pshHashLen = []int{0, 1, 31, 33}[pick(4)]
 		case 2:
 			b.total = 0
 		case 3:
@@ -170,43 +205,43 @@ func c17GenMsg(r *vg.Rand, which int, h int64, rd int32, hostilePct int) c17M {
 	}
 	sigLen := func() int {
 		if hos("siglen") {
-			return []int{0, 1, 63, 65, 66, 200}[r.Intn(6)]
+			return []int{0, 1, 63, 65, 66, 200}[pick(6)]
 		}
 		return 64
 	}
 	vtype := func() tmproto.SignedMsgType {
 		if hos("type") {
-			return tmproto.SignedMsgType([]int32{0, 3, 32, -1, 255}[r.Intn(5)])
+			return tmproto.SignedMsgType([]int32{0, 3, 32, -1, 255}[pick(5)])
 		}
-		return []tmproto.SignedMsgType{tmproto.PrevoteType, tmproto.PrecommitType}[r.Intn(2)]
+		return []tmproto.SignedMsgType{tmproto.PrevoteType, tmproto.PrecommitType}[pick(2)]
 	}
 	m := c17M{}
 	switch which {
 	case 0: // NewRoundStep
-		height, round := c17Pick64(r, h, hos("height")), c17Pick32(r, rd, hos("round"))
+		height, round := c17Pick64(pick, h, hos("height")), c17Pick32(pick, rd, hos("round"))
 		step := uint32(1 + r.Intn(8))
 		if hos("step") {
-			step = []uint32{0, 9, 255, 256, 257, 264, 1 << 31}[r.Intn(7)]
+			step = []uint32{0, 9, 255, 256, 257, 264, 1 << 31}[pick(7)]
 		}
-		lcr := c17Pick32(r, 0, hos("lcr"))
-		secs := c17Pick64(r, 5, hos("secs"))
+		lcr := c17Pick32(pick, 0, hos("lcr"))
+		secs := c17Pick64(pick, 5, hos("secs"))
 		m.ch, m.height, m.round = StateChannel, height, round
 		m.pb = &tmcons.NewRoundStep{Height: height, Round: round, Step: step, SecondsSinceStartTime: secs, LastCommitRound: lcr}
 		m.coq = vg.App("MNewRoundStep", vg.Z(height), vg.Z(int64(round)), vg.Z(int64(step)), vg.Z(secs), vg.Z(int64(lcr)))
 		m.human = fmt.Sprintf("NewRoundStep{Height:%d Round:%d Step:%d SecondsSinceStartTime:%d LastCommitRound:%d}", height, round, step, secs, lcr)
 	case 1: // NewValidBlock
-		height, round := c17Pick64(r, h, hos("height")), c17Pick32(r, rd, hos("round"))
+		height, round := c17Pick64(pick, h, hos("height")), c17Pick32(pick, rd, hos("round"))
 		total := uint32(1 + r.Intn(200))
 		if hos("total") {
-			total = []uint32{0, 1, uint32(types.MaxBlockPartsCount), uint32(types.MaxBlockPartsCount) + 1, 100000}[r.Intn(5)]
+			total = []uint32{0, 1, uint32(types.MaxBlockPartsCount), uint32(types.MaxBlockPartsCount) + 1, 100000}[pick(5)]
 		}
 		ba := c17BA{int64(total), int((int64(total) + 63) / 64)}
 		if hos("bitarray") {
-			ba = c17HostileBA(r, int64(total))
+			ba = c17HostileBA(r, pick, int64(total))
 		}
 		hl := 32
 		if hos("hashlen") {
-			hl = []int{0, 31, 33}[r.Intn(3)]
+			hl = []int{0, 31, 33}[pick(3)]
 		}
 		isCommit := r.Bool()
 		pbba := ba.pb()
@@ -215,14 +250,14 @@ func c17GenMsg(r *vg.Rand, which int, h int64, rd int32, hostilePct int) c17M {
 		m.coq = vg.App("MNewValidBlock", vg.Z(height), vg.Z(int64(round)), vg.App("Build_psheader", vg.Z(int64(total)), vg.Z(int64(hl))), ba.coq(), vg.B(isCommit))
 		m.human = fmt.Sprintf("NewValidBlock{Height:%d Round:%d BlockPartSetHeader{Total:%d len(Hash):%d} BlockParts:%v IsCommit:%v}", height, round, total, hl, ba, isCommit)
 	case 2: // Proposal
-		height, round := c17Pick64(r, h, hos("height")), c17Pick32(r, rd, hos("round"))
+		height, round := c17Pick64(pick, h, hos("height")), c17Pick32(pick, rd, hos("round"))
 		pol := int32(-1)
 		if hos("polround") {
-			pol = []int32{-2, 0, 5, math.MaxInt32, math.MinInt32}[r.Intn(5)]
+			pol = []int32{-2, 0, 5, math.MaxInt32, math.MinInt32}[pick(5)]
 		}
 		typ := tmproto.ProposalType
 		if hos("type") {
-			typ = tmproto.SignedMsgType([]int32{0, 1, 2, 33}[r.Intn(4)])
+			typ = tmproto.SignedMsgType([]int32{0, 1, 2, 33}[pick(4)])
 		}
 		bid := goodBID
 		if hos("blockid") {
@@ -234,31 +269,31 @@ func c17GenMsg(r *vg.Rand, which int, h int64, rd int32, hostilePct int) c17M {
 		m.coq = vg.App("MProposal", vg.Z(int64(typ)), vg.Z(height), vg.Z(int64(round)), vg.Z(int64(pol)), bid.coq(), vg.Z(int64(sl)))
 		m.human = fmt.Sprintf("Proposal{Type:%d Height:%d Round:%d POLRound:%d %v len(Signature):%d}", typ, height, round, pol, bid, sl)
 	case 3: // ProposalPOL
-		height, pr := c17Pick64(r, h, hos("height")), c17Pick32(r, rd, hos("polround"))
+		height, pr := c17Pick64(pick, h, hos("height")), c17Pick32(pick, rd, hos("polround"))
 		n := int64(1 + r.Intn(150))
 		ba := c17BA{n, int((n + 63) / 64)}
 		if hos("bitarray") {
-			ba = c17HostileBA(r, n)
+			ba = c17HostileBA(r, pick, n)
 		}
 		m.ch, m.height, m.round = DataChannel, height, pr
 		m.pb = &tmcons.ProposalPOL{Height: height, ProposalPolRound: pr, ProposalPol: ba.pb()}
 		m.coq = vg.App("MProposalPOL", vg.Z(height), vg.Z(int64(pr)), ba.coq())
 		m.human = fmt.Sprintf("ProposalPOL{Height:%d ProposalPOLRound:%d ProposalPOL:%v}", height, pr, ba)
 	case 4: // BlockPart
-		height, round := c17Pick64(r, h, hos("height")), c17Pick32(r, rd, hos("round"))
+		height, round := c17Pick64(pick, h, hos("height")), c17Pick32(pick, rd, hos("round"))
 		index := uint32(r.Intn(4))
 		if hos("index") {
-			index = []uint32{4, 5, 64, 1 << 31, math.MaxUint32}[r.Intn(5)]
+			index = []uint32{4, 5, 64, 1 << 31, math.MaxUint32}[pick(5)]
 		}
 		blen := 1 + r.Intn(64)
 		if hos("byteslen") {
-			blen = []int{0, int(types.BlockPartSizeBytes), int(types.BlockPartSizeBytes) + 1}[r.Intn(3)]
+			blen = []int{0, int(types.BlockPartSizeBytes), int(types.BlockPartSizeBytes) + 1}[pick(3)]
 		}
 		proof := tmcrypto.Proof{Total: 4, Index: int64(index % 4), LeafHash: c17Fill(32, 0xD1), Aunts: [][]byte{c17Fill(32, 0xD2), c17Fill(32, 0xD3)}}
 		proofOK := true
 		if hos("proof") {
 			proofOK = false
-			switch r.Intn(5) {
+			switch pick(5) {
 			case 0:
 				proof.Total = -1
 			case 1:
@@ -279,7 +314,7 @@ func c17GenMsg(r *vg.Rand, which int, h int64, rd int32, hostilePct int) c17M {
 		m.coq = vg.App("MBlockPart", vg.Z(height), vg.Z(int64(round)), vg.Z(int64(index)), vg.Z(int64(blen)), vg.B(proofOK))
 		m.human = fmt.Sprintf("BlockPart{Height:%d Round:%d Part{Index:%d len(Bytes):%d Proof{Total:%d Index:%d len(LeafHash):%d aunts:%d} proofValid:%v}}", height, round, index, blen, proof.Total, proof.Index, len(proof.LeafHash), len(proof.Aunts), proofOK)
 	case 5: // Vote
-		height, round := c17Pick64(r, h, hos("height")), c17Pick32(r, rd, hos("round"))
+		height, round := c17Pick64(pick, h, hos("height")), c17Pick32(pick, rd, hos("round"))
 		typ := vtype()
 		bid := goodBID
 		if r.Chance(30) {
@@ -290,11 +325,11 @@ func c17GenMsg(r *vg.Rand, which int, h int64, rd int32, hostilePct int) c17M {
 		}
 		al := 20
 		if hos("addrlen") {
-			al = []int{0, 19, 21}[r.Intn(3)]
+			al = []int{0, 19, 21}[pick(3)]
 		}
 		idx := int32(r.Intn(4))
 		if hos("index") {
-			idx = []int32{-1, 4, 1000, math.MaxInt32}[r.Intn(4)]
+			idx = []int32{-1, 4, 1000, math.MaxInt32}[pick(4)]
 		}
 		sl := sigLen()
 		bpb := bid.pb()
@@ -303,18 +338,18 @@ func c17GenMsg(r *vg.Rand, which int, h int64, rd int32, hostilePct int) c17M {
 		m.coq = vg.App("MVote", vg.Z(int64(typ)), vg.Z(height), vg.Z(int64(round)), bid.coq(), vg.Z(int64(al)), vg.Z(int64(idx)), vg.Z(int64(sl)))
 		m.human = fmt.Sprintf("Vote{Type:%d Height:%d Round:%d %v len(ValidatorAddress):%d ValidatorIndex:%d len(Signature):%d}", typ, height, round, bid, al, idx, sl)
 	case 6: // HasVote
-		height, round := c17Pick64(r, h, hos("height")), c17Pick32(r, rd, hos("round"))
+		height, round := c17Pick64(pick, h, hos("height")), c17Pick32(pick, rd, hos("round"))
 		typ := vtype()
 		idx := int32(r.Intn(4))
 		if hos("index") {
-			idx = []int32{-1, 4, 63, 64, 1000, math.MaxInt32}[r.Intn(6)]
+			idx = []int32{-1, 4, 63, 64, 1000, math.MaxInt32}[pick(6)]
 		}
 		m.ch, m.height, m.round = StateChannel, height, round
 		m.pb = &tmcons.HasVote{Height: height, Round: round, Type: typ, Index: idx}
 		m.coq = vg.App("MHasVote", vg.Z(height), vg.Z(int64(round)), vg.Z(int64(typ)), vg.Z(int64(idx)))
 		m.human = fmt.Sprintf("HasVote{Height:%d Round:%d Type:%d Index:%d}", height, round, typ, idx)
 	case 7: // VoteSetMaj23
-		height, round := c17Pick64(r, h, hos("height")), c17Pick32(r, rd, hos("round"))
+		height, round := c17Pick64(pick, h, hos("height")), c17Pick32(pick, rd, hos("round"))
 		typ := vtype()
 		bid := goodBID
 		if hos("blockid") {
@@ -325,7 +360,7 @@ func c17GenMsg(r *vg.Rand, which int, h int64, rd int32, hostilePct int) c17M {
 		m.coq = vg.App("MVoteSetMaj23", vg.Z(height), vg.Z(int64(round)), vg.Z(int64(typ)), bid.coq())
 		m.human = fmt.Sprintf("VoteSetMaj23{Height:%d Round:%d Type:%d %v}", height, round, typ, bid)
 	default: // VoteSetBits
-		height, round := c17Pick64(r, h, hos("height")), c17Pick32(r, rd, hos("round"))
+		height, round := c17Pick64(pick, h, hos("height")), c17Pick32(pick, rd, hos("round"))
 		typ := vtype()
 		bid := goodBID
 		if hos("blockid") {
@@ -334,7 +369,7 @@ func c17GenMsg(r *vg.Rand, which int, h int64, rd int32, hostilePct int) c17M {
 		n := int64(r.Intn(6))
 		ba := c17BA{n, int((n + 63) / 64)}
 		if hos("bitarray") {
-			ba = c17HostileBA(r, 4)
+			ba = c17HostileBA(r, pick, 4)
 		}
 		m.ch, m.height, m.round = VoteSetBitsChannel, height, round
 		m.pb = &tmcons.VoteSetBits{Height: height, Round: round, Type: typ, BlockID: bid.pb(), Votes: ba.pb()}
@@ -563,7 +598,23 @@ func TestVerifC17ConsValidate(t *testing.T) {
 		}
 	}
 
-	n := vg.Scale(330, 30000)
+	// systematic: every message type, every field, every hostile value of that field, alone
+	names := []string{"NewRoundStep", "NewValidBlock", "Proposal", "ProposalPOL", "BlockPart", "Vote", "HasVote", "VoteSetMaj23", "VoteSetBits"}
+	for which, fields := range c17Fields {
+		for fi, f := range fields {
+			for choice := 0; choice < 9; choice++ {
+				id := cs.NextID()
+				if !cs.Want(id) {
+					continue
+				}
+				r := root.Fork(uint64(1000000 + which*1000 + fi*10 + choice))
+				m := c17GenMsg(r, which, 5, 1, 0, &c17Force{f, choice})
+				emit(id, "sweep:"+names[which]+":"+f, m)
+			}
+		}
+	}
+
+	n := vg.Scale(140, 30000)
 	for k := 0; k < n; k++ {
 		id := cs.NextID()
 		if !cs.Want(id) {
@@ -572,7 +623,7 @@ func TestVerifC17ConsValidate(t *testing.T) {
 		r := root.Fork(uint64(k))
 		which := k % 9
 		pct := []int{0, 12, 25}[r.Intn(3)]
-		m := c17GenMsg(r, which, 5+int64(r.Intn(3)), int32(r.Intn(3)), pct)
+		m := c17GenMsg(r, which, 5+int64(r.Intn(3)), int32(r.Intn(3)), pct, nil)
 		kind := []string{"NewRoundStep", "NewValidBlock", "Proposal", "ProposalPOL", "BlockPart", "Vote", "HasVote", "VoteSetMaj23", "VoteSetBits"}[which]
 		if len(m.muts) > 0 {
 			kind += ":" + strings.Join(m.muts, "+")
@@ -896,7 +947,7 @@ func TestVerifC17ReactorCons(t *testing.T) {
 			ins = []c17In{{ch: ch, bz: bz}}
 			kname = "random"
 		case 1:
-			m := c17GenMsg(r, r.Intn(9), rs.Height, rs.Round, 0)
+			m := c17GenMsg(r, r.Intn(9), rs.Height, rs.Round, 0, nil)
 			bz := c17Wire(m.pb)
 			switch r.Intn(3) {
 			case 0:
@@ -931,7 +982,7 @@ func TestVerifC17ReactorCons(t *testing.T) {
 				ins = append(ins, nrs(ph, pr, 0))
 			}
 			for i := 0; i < 1+r.Intn(2); i++ {
-				m := c17GenMsg(r, r.Intn(9), ph, pr, 35)
+				m := c17GenMsg(r, r.Intn(9), ph, pr, 35, nil)
 				in := c17In1(m)
 				if r.Chance(8) {
 					in.ch = []byte{StateChannel, DataChannel, VoteChannel, VoteSetBitsChannel}[r.Intn(4)]
